@@ -31,7 +31,7 @@ func init() {
 		Real:     []string{"seehuhn.de/go/pdf Writer, xref writer, Format, filters (working tree)"},
 		Stub:     []string{"sink (simdisk: 5 kinds)", "write chunking"},
 		Quick:    core.Budget{Runs: 200000, Secs: 150},
-		Thorough: core.Budget{Runs: 3000000, Secs: 1500},
+		Thorough: core.Budget{Runs: 3000000, Secs: 900},
 		Run:      Run,
 		Corners:  corners,
 	})
